@@ -4,5 +4,6 @@ P=$1; shift
 cd /repo && git apply "$P" || { echo "patch does not apply"; exit 2; }
 (cd /repo && go build ./... && go test -vet=off -count=1 ./... 2>&1 | tail -1)
 cd /verif
+export VERIF_EVIDENCE_DIR=/verif/.cache/seed-evidence
 for p in "$@"; do ./check $p 2>&1 | grep -v '^#' | tail -3; done
 git -C /repo checkout -- . ; git -C /verif checkout -- lean/NjectGen 2>/dev/null
